@@ -217,6 +217,144 @@ def send_case(rnd, host, size, script):
     return lit, {"blocks": len(blocks), "result": result}
 
 
+def serial_line_case(host):
+    """the shipped SerialConnection on a pseudo terminal (the harness holds the other end): a message whose body contains every byte
+    value arrives block by block, then the library sends one.  The line must be transparent: flow-control or control characters
+    (XON/XOFF, CR/LF, ^C ...) are data like any other.  Returns (LRecv literal, LSend literal, details) or None without ptys."""
+    import os
+    import pty
+    import select
+
+    try:
+        master, slave = pty.openpty()
+    except OSError:
+        return None
+    settings = secsgem.secsi.SecsISettings(port=os.ttyname(slave), device_type=secsgem.common.DeviceType.HOST if host else secsgem.common.DeviceType.EQUIPMENT, device_id=1)
+    proto = settings.create_protocol()
+    got = []
+    proto.events.message_received += lambda data: got.append(data["message"])
+
+    def read_n(n, timeout=5.0):
+        out = b""
+        deadline = time.monotonic() + timeout
+        while len(out) < n and time.monotonic() < deadline:
+            if select.select([master], [], [], 0.05)[0]:
+                out += os.read(master, n - len(out))
+        return out
+
+    en = threading.Thread(target=proto.enable, daemon=True)
+    en.start()
+    en.join(10)
+    try:
+        if en.is_alive():
+            raise common.Wedged("enable() of the serial connection did not return")
+        time.sleep(0.2)
+        body = bytes(range(256)) + bytes([0x11, 0x13, 0x11, 0x03, 0x1A, 0x0D, 0x0A, 0x7F, 0x1C])
+        msg = SecsIMessage(SecsIHeader(0x11131A03, 1, 17, 19, False), body)      # stream 17 (XON), function 19 (XOFF)
+        blocks = [b.encode() for b in msg.blocks]
+        chunks, line = [], b""
+        for blk in blocks:
+            os.write(master, bytes([ENQ]))
+            chunks.append(bytes([ENQ]))
+            line += read_n(1)
+            os.write(master, blk)
+            chunks.append(blk)
+            line += read_n(1)
+        deadline = time.monotonic() + 3
+        while not got and time.monotonic() < deadline:
+            time.sleep(0.01)
+        intact = len(got) == 1 and got[0].data == body and (got[0].header.stream, got[0].header.function, got[0].header.system) == (17, 19, 0x11131A03)
+        recv_lit = "(LRecv [" + ";".join(nl(c) for c in chunks) + "] " + nl(line) + f" {len(blocks) if intact else 0}%nat {len(blocks)}%nat false)"
+        # outbound
+        out = SecsIMessage(SecsIHeader(0x13110D0A, 1, 19, 17, False), bytes([0x13, 0x11]) + bytes(range(255, -1, -1)))
+        oblocks = [b.encode() for b in out.blocks]
+        box = {}
+        th = threading.Thread(target=lambda: box.setdefault("r", proto.send_message(out)), daemon=True)
+        th.start()
+        sent, answers = [], []
+        for blk in oblocks:
+            e = read_n(1)
+            sent.append(e)
+            os.write(master, bytes([EOT]))
+            answers.append(EOT)
+            b = read_n(len(blk))
+            sent.append(b)
+            os.write(master, bytes([ACK]))
+            answers.append(ACK)
+        th.join(5)
+        result = box.get("r")
+        res = "None" if result is None else ("(Some true)" if result else "(Some false)")
+        send_lit = "(LSend [" + ";".join(nl(b) for b in oblocks) + "] " + nl(answers) + " [" + ";".join(nl(s) for s in sent if s) + "] " + res + ")"
+        return recv_lit, send_lit, {"inbound_answers": line.hex(), "inbound_intact_once": intact, "outbound_result": result,
+                                    "outbound_bytes_equal": [s for s in sent if s] == [x for blk in oblocks for x in (bytes([ENQ]), blk)]}
+    finally:
+        try:
+            proto.disable()
+        except Exception:  # noqa: BLE001
+            pass
+        for fd in (master, slave):
+            try:
+                os.close(fd)
+            except OSError:
+                pass
+
+
+def send_two_case(rnd, host, script_unused=None, size_unused=None):
+    """two application threads send one single-block message each; the second block is queued while the first still waits for
+    its EOT.  Each block needs its own ENQ / EOT / ACK"""
+    rig = make_rig(host)
+    try:
+        msgs = [message(rnd, 10, 601), message(rnd, 30, 602)]
+        blocks = [m.blocks[0].encode() for m in msgs]
+        boxes = [{}, {}]
+
+        def total():
+            return len(b"".join(rig.conn.sent))
+
+        def wait_for(n):
+            deadline = time.monotonic() + 5
+            while total() < n and time.monotonic() < deadline:
+                time.sleep(0.0005)
+            rig.settle(ignore_send_queue=True)
+            return total() >= n
+
+        ths = [threading.Thread(target=lambda i=i: boxes[i].setdefault("r", rig.proto.send_message(msgs[i])), daemon=True) for i in range(2)]
+        ths[0].start()
+        if not wait_for(1):
+            raise common.Wedged("no ENQ")
+        ths[1].start()
+        deadline = time.monotonic() + 5
+        while rig.proto._send_queue.qsize() < 2 and time.monotonic() < deadline:
+            time.sleep(0.0005)
+        answers = []
+        seen = total()
+        for k in range(2):
+            rig.conn.feed(bytes([EOT]))
+            answers.append(EOT)
+            if not wait_for(seen + len(blocks[k])):
+                break
+            seen = total()
+            rig.conn.feed(bytes([ACK]))
+            answers.append(ACK)
+            if k == 0:
+                if not wait_for(seen + 1):
+                    break
+                rig.settle(ignore_send_queue=True)
+                seen = total()
+        for th in ths:
+            th.join(5)
+        if any(th.is_alive() for th in ths):
+            raise common.Wedged("send_message did not return")
+        sent = [bytes(x) for x in rig.conn.sent]
+        results = [b.get("r") for b in boxes]
+    finally:
+        rig.stop()
+    result = None if any(r is None for r in results) else all(results)
+    res = "None" if result is None else ("(Some true)" if result else "(Some false)")
+    lit = "(LSend [" + ";".join(nl(b) for b in blocks) + "] " + nl(answers) + " [" + ";".join(nl(s) for s in sent) + "] " + res + ")"
+    return lit, {"blocks": 2, "result": result}
+
+
 def request_reply_case(host, reply_size):
     """a transaction over the line: the application asks with send_and_waitfor_response (S1F1 W), the peer acknowledges the block and
     then sends the reply (S1F2, same system bytes, 1-2 blocks) as a sender does.  The reply goes to the caller - once - and is not
@@ -327,6 +465,8 @@ def gen_cases(rnd, tier):
     cases.append(("send", False, 500, ["ack", "ack", "ack"]))
     # answers to ENQ that are not EOT (the block may only be started after EOT)
     cases.append(("send", False, 10, [([NAK], "ack")]))
+    cases.append(("send2", False, None, None))
+    cases.append(("send2", True, None, None))
     cases.append(("send", False, 300, [([5], "ack"), ([0, 6, 21], "ack")]))         # equipment: the host's own ENQ, noise, ACK, NAK
     cases.append(("send", True, 300, [([21, 6], "ack"), ([4 + 1 + 1], "nak")]))
     cases.append(("send", True, 10, [([0, 255, 6], "ack")]))
@@ -385,13 +525,23 @@ def run(tier, replay=None):
     cases = gen_cases(rnd, tier)
     wedged, kept, lits, raws = [], [], [], []
     for c in cases:
-        r = common.guarded(lambda c=c: (recv_case(rnd, c[1], c[2], c[3]) if c[0] == "recv" else recv_len_case(rnd, c[1], c[2], c[3]) if c[0] == "recvlen" else send_case(rnd, c[1], c[2], c[3])),
+        r = common.guarded(lambda c=c: (recv_case(rnd, c[1], c[2], c[3]) if c[0] == "recv" else recv_len_case(rnd, c[1], c[2], c[3]) if c[0] == "recvlen" else send_two_case(rnd, c[1]) if c[0] == "send2" else send_case(rnd, c[1], c[2], c[3])),
                            repr(c[:3]), wedged, 30.0)
         if r is not None:
             kept.append(c)
             lits.append(r[0])
             raws.append(r[1])
     cases = kept
+    # the shipped serial transport on a pseudo terminal, both directions, every byte value
+    serial_obs = []
+    for host in (False, True):
+        r = common.guarded(lambda h=host: serial_line_case(h), f"SerialConnection on a pty, host={host}", wedged, 40.0)
+        if r is not None:
+            recv_lit, send_lit, det = r
+            serial_obs.append({"host": host, **det})
+            cases += [("serial-recv", host, "all byte values"), ("serial-send", host, "all byte values")]
+            lits += [recv_lit, send_lit]
+            raws += [{"intact": det["inbound_intact_once"], "once": True, **det}, det]
     common.report_wedged(report, wedged, proof)
     for c, raw in zip(cases, raws):
         if raw.get("intact") is False or raw.get("once") is False:
@@ -458,10 +608,12 @@ def run(tier, replay=None):
     cov["distinct_nontrivial"] = len(set(lits))
     cov["rule"] = ("a real SecsIProtocol (host and equipment device type) on an in-memory line: (receive) 1-3 messages of 0-500 bytes, each block announced by ENQ and fed in random chunks "
                    "(1 to 1000 bytes), optionally with one byte behind the length byte changed, or the length byte itself raised / lowered; observed: the bytes the endpoint puts on the line, delivered messages (identical, once); "
-                   "(send) messages of 1-3 blocks sent from an application thread, the peer answering ENQ and each block with EOT/ACK, NAK or another byte; observed: the bytes sent and the result")
+                   "(send) messages of 1-3 blocks sent from an application thread, the peer answering ENQ with EOT - or first with NAK, noise, its own ENQ - and each block with ACK, NAK or another byte; two application threads with a block each queued at the same time; "
+                   "observed: the bytes sent and the result; (transport) the shipped SerialConnection on a pseudo terminal: a two-block message with every byte value (XON, XOFF, ^C, CR, LF ... in header and body) in each direction")
     cov["correspondence"] = {k: v for k, v in stats.items() if k != "eval_errors"}
     cov["distribution"] = {"kinds": dict(Counter(c[0] + ("-corrupt" if c[0] == "recv" and c[3] is not None else "") for c in cases)), "device": dict(Counter("host" if c[1] else "equipment" for c in cases))}
     cov["samples"] = [repr(c)[:200] for c in cases[:: max(1, len(cases) // 5)][:5]]
     cov["transactions_and_dispatch"] = trans
+    cov["serial_connection_on_pty"] = serial_obs or "no pseudo terminal available"
     cov["retry_after_damaged_block"] = [{k: o[k] for k in ("size", "blocks", "damaged_block", "second_attempt_all_acknowledged", "delivered_lengths", "intact_once")} for o in retries]
     return report.finish()
